@@ -246,6 +246,20 @@ Example C16_handover_nonvacuous :
   = ([], [], [[EStatus 2 7]; [EStatus 2 8]]).
 Proof. reflexivity. Qed.
 
+(* 20. The refresh debouncer (request / refresh start / refresh end): in every reachable state the timer is
+   armed exactly when some request has not yet been followed by a refresh start - in particular a request
+   made while a refresh is in flight re-arms it; an armed timer with the flusher idle can start a refresh and
+   a running refresh can end; hence in a quiescent state every request has been followed by a refresh that
+   started after it. *)
+Theorem C16_refresh_requests_served : forall tr s,
+  rd_run rd_init tr = Some s ->
+  rd_armed s = rd_unserved tr false
+  /\ (rd_armed s = true -> rd_running s = false -> rd_step s RDStart <> None)
+  /\ (rd_running s = true -> rd_step s RDEnd <> None)
+  /\ (rd_step s RDStart = None -> rd_step s RDEnd = None -> rd_unserved tr false = false).
+Proof. exact rd_requests_served. Qed.
+Print Assumptions C16_refresh_requests_served.
+
 (* ------------------------------------------------------------------------------------------------
    Non-vacuity: the side conditions hold on non-trivial histories (checked by computation through the
    decidable versions of Proofs6.v), and the conclusions are about non-empty rings. *)
